@@ -310,3 +310,7 @@ Definition gregion_at (r : gregion) (i : Z) : res Z :=
 (* binary.BigEndian.PutUintK(w, v): panics when w is shorter than k bytes *)
 Definition gregion_need (r : gregion) (k : nat) : res Z :=
   if snd r <? Z.of_nat k then Panic 1 else Ok (fst r).
+
+(* x[i] for a slice that the function only reads (a list): panics out of range *)
+Definition gelem {A} (l : list A) (i : Z) : res A :=
+  if i <? 0 then Panic 2 else match nth_error l (Z.to_nat i) with Some x => Ok x | None => Panic 2 end.
